@@ -41,6 +41,15 @@ CHECKS = {
         "runtime oracle: real compute_overlap vs independent reference integrals; symbolic-argument execution of the kernel",
         "4/C06",
     ),
+    "C14": (
+        "exploration",
+        "Return values of the real convert_to_segmented / convert_to_unrestricted / prepare_* on random mixtures of segmented, SP "
+        "and generalized shells and on restricted orbital sets of every occupation class are compared with independent "
+        "expectations: function values row by row under R.gto (same functions, same order), documented alpha/beta rules, "
+        "density matrices, idempotence, identity of the returned object, documented errors and warnings, argument unchanged (M1).",
+        "runtime oracle on return values + deep-snapshot monitor",
+        "4/C14",
+    ),
 }
 
 NOT_YET = "check not built yet (work in progress; see DESIGN.md section 5b)"
